@@ -308,8 +308,20 @@ Section Generic.
     let* s := format_error msg in
     Ok (RStr s, st1).
 
+  (* the element loop of processArray, read.go:363-369 (after the fix: the first element that
+     cannot be read ends the array with its error); [pr] reads one element *)
+  Fixpoint elems_go (pr : S -> res (rval * rtype * S)) (k : nat) (n : Z) (acc : list rval) (st : S)
+    : res (list rval * S) :=
+    if n <=? 0 then Ok (frev acc, st) else
+    match k with
+    | O => OutOfFuel
+    | Datatypes.S k' =>
+        let* (v, _, st') := pr st in
+        elems_go pr k' (n - 1) (v :: acc) st'
+    end.
+
   (* process / processArray, read.go:287 and 354.  One unit of [fuel] per nesting level; the
-     element loop of one array runs on its own counter k (at most one element per byte) *)
+     element loop of one array runs on the loop fuel (at most one element per byte) *)
   Fixpoint process (fuel lf : nat) (st : S) : res (rval * rtype * S) :=
     match fuel with
     | O => OutOfFuel
@@ -322,15 +334,7 @@ Section Generic.
         else if beq b STAR then
           let* (l, st2) := read_int lf st1 in
           if l =? -1 then Ok (RNilArr, TArray, st2) else
-          let* (els, st3) :=
-            (fix elems (k : nat) (n : Z) (acc : list rval) (st : S) {struct k} : res (list rval * S) :=
-               if n <=? 0 then Ok (frev acc, st) else
-               match k with
-               | O => OutOfFuel
-               | Datatypes.S k' =>
-                   let* (v, _, st') := process f lf st in
-                   elems k' (n - 1) (v :: acc) st'
-               end) lf l [] st2 in
+          let* (els, st3) := elems_go (process f lf) lf l [] st2 in
           Ok (RArr els, TArray, st3)
         else if beq b COLON then
           let* (z, st2) := read_int lf st1 in Ok (RInt z, TInt, st2)
@@ -366,7 +370,7 @@ End Generic.
 
 Arguments line_go {S}. Arguments read_line_slow {S}. Arguments read_line {S}. Arguments int_go {S}.
 Arguments read_int {S}. Arguments take_go {S}. Arguments process_bulk {S}. Arguments process_error {S}.
-Arguments process {S}. Arguments read_packet {S}. Arguments dissect_loop {S}. Arguments dissect_fuel {S}.
+Arguments elems_go {S}. Arguments process {S}. Arguments read_packet {S}. Arguments dissect_loop {S}. Arguments dissect_fuel {S}.
 Arguments fuel_of {S}. Arguments dissect {S}.
 
 (* ------------------------------------------------------------------ chunked instance = the code *)
